@@ -151,7 +151,7 @@ theorem reach_modeOk {s : Session} (h : Reach s) : s.safeMode = -1 ∨ ModeOk s 
 /-- **Option elements inside a document take effect only while the safe mode is 0**: a document rendered in a
     non-zero safe mode ends with the same safe mode and replacement text (from C04's `Step`). -/
 theorem document_options_only_at_mode0 (env : Env) (fuel : Nat) (src : Str) (s s' : Session) (html : Str)
-    (h : ((mkRec env fuel).document src).run s = .ok (html, s')) (hm : s.safeMode ≠ 0) :
+    (h : ((mkRec env fuel).document 0 src).run s = .ok (html, s')) (hm : s.safeMode ≠ 0) :
     s'.safeMode = s.safeMode ∧ s'.htmlReplacement = s.htmlReplacement := by
   have := untrusted_source_cannot_change_definitions env fuel src s s' html h hm
   exact ⟨this.1, this.2.1⟩
